@@ -1,5 +1,5 @@
 From Coq Require Import List NArith Bool.
-From V.Ts Require Import Model Proofs Rearm Timing.
+From V.Ts Require Import Model Proofs Rearm Timing Extra Exact.
 Import ListNotations.
 Open Scope N_scope.
 From V.C09 Require Import Properties.
@@ -72,3 +72,30 @@ Check (C09_idle_close_exact :
      exists t, kfind (p, c) (s_act (fst (step s dt e))) = Some t /\
                s_now (fst (step s dt e)) = t + s_T (fst (step s dt e))) /\
   (forall c, 0 < pend_on c (s_pend s) \/ 0 < ch_held_of c (s_chans s) -> 0 < strong s c)).
+Check (C09_active_iff_recent :
+  forall tr ka T n0 k,
+  feasible 2 env0 (init ka T n0) tr = true ->
+  In k (e_live (efinal env0 tr)) ->
+  let s := final (init ka T n0) tr in
+  exists t, kfind k (s_act s) = Some t /\ t <= s_now s /\
+            (handle_active (s_ctxs s) k = true <-> s_now s < t + s_T s)).
+Check (C09_tracked_is_active :
+  forall tr ka T n0 k t,
+  feasible 2 env0 (init ka T n0) tr = true ->
+  kfind k (s_last (final (init ka T n0) tr)) = Some t ->
+  handle_active (s_ctxs (final (init ka T n0) tr)) k = true).
+Check (C09_view_is_live :
+  forall tr ka T n0 p,
+  feasible 2 env0 (init ka T n0) tr = true ->
+  conn_ids (s_ctxs (final (init ka T n0) tr)) p = live_of p (e_live (efinal env0 tr))).
+Check (C09_open_counts_for_primary :
+  forall e s p k,
+  conn_inv e (s_ctxs s) (s_pend s) -> ka_activity_of s (EOpen p) = Some k ->
+  fst k = p /\ hd_error (live_of p (e_live e)) = Some (snd k) /\ s_ka s = true).
+Check (C09_other_connection_untouched :
+  forall e s dt i k,
+  conn_inv e (s_ctxs s) (s_pend s) -> ev_ok 2 e s i = true ->
+  ka_activity_of (with_now s (s_now s + dt)) i <> Some k -> (forall p c, i = EClosed p c -> k <> (p, c)) ->
+  kfind k (s_last (fst (mid s dt i))) = kfind k (s_last s) /\
+  kfind k (s_act (fst (mid s dt i))) = kfind k (s_act s) /\
+  (handle_active (s_ctxs s) k = true -> handle_active (s_ctxs (fst (mid s dt i))) k = true)).
